@@ -18,7 +18,7 @@ import sys
 
 from harness import common as C
 
-PROP_MODULES = ['Andes.Props.C07']
+PROP_MODULES = ['Andes.Props.C07', 'Andes.Props.C04Order']
 RULE = ('SMIB case = (M, D, xd\', x1, x2, P, V, trip time, reclose time, method); small-signal case = (stock case, '
         'perturbation direction seed, method); distinct = distinct parameter tuple; non-trivial = a line is switched / '
         'the perturbation excites at least one oscillatory mode')
